@@ -129,7 +129,18 @@ impl<'r> DocGen<'r> {
 				let (size, logical) = match self.rng.gen_range(0..4) {
 					0 => (12, Some(ALogical::Simple("duration"))),
 					1 => (8, Some(ALogical::Decimal { precision: 6, scale: Some(1) })),
-					_ => (*[0usize, 1, 4, 16].choose(self.rng).unwrap(), None),
+					// (sizes across the decimal-digit boundaries too: they are printed in the
+					// canonical form)
+					2 => (*[0usize, 1, 4, 16].choose(self.rng).unwrap(), None),
+					_ => (
+						match self.rng.gen_range(0..4) {
+							0 => *[9usize, 10, 11, 99, 100, 101, 109, 110, 999, 1000, 1024, 1099, 10000, 65536].choose(self.rng).unwrap(),
+							1 => self.rng.gen_range(0..130),
+							2 => self.rng.gen_range(0..12000),
+							_ => 1usize << self.rng.gen_range(0..24),
+						},
+						None,
+					),
 				};
 				ATy::Fixed { ns, name, size, logical }
 			}
